@@ -29,6 +29,21 @@ CLAIMED = {
        "decided.",
   technique="table comparison against independently computed definitions; GF(2)-linear and truth-table evaluation of macro-expanded expression trees",
   ref="4/C14"),
+ "C15": dict(
+  text="Structural and finite-domain clauses of BCJ/delta invertibility and format stability: (SYM) in every *_code() the "
+       "direction flag only selects src+pc vs src-pc (or negates pc) -- detection, gating (incl. the ARM64 ADRP range gate), "
+       "stride and stores are shared by both directions; (OPC) the instruction-detection predicates of ARM, Thumb, PowerPC, "
+       "SPARC, x86 (opcode, MS byte, prev_mask gate, mask bookkeeping, history saved) and ARM64, and the IA-64 template table, "
+       "evaluated over every value of the bytes they read, equal ISA reference predicates; (BITS) an exact bit-routing "
+       "evaluation of the gather (instruction bytes -> address) and scatter (address -> stored bytes) code of ARM, Thumb, "
+       "PowerPC, SPARC, x86, ARM64 BL/ADRP and RISC-V JAL (both directions) equals reference routing tables that are checked "
+       "to be mutually inverse; (WIN/STRIDE) look-ahead, alignment, stride and pc bias; (ONE) one-shot API state/direction/"
+       "alignment; (DELTA) the three delta loops index the history identically, store the right byte in the right order, "
+       "props dist-1/+1; (PROTO) simple_code returns STREAM_END only at end of input, advances now_pos by the filtered "
+       "count, releases the tail unfiltered at EOF. NOT decided: the round trip for all inputs and slicings as such, "
+       "RISC-V AUIPC pair arithmetic, IA-64 slot arithmetic, x86 prev_mask evolution as a function of all inputs.",
+  technique="AST/CFG shape rule for direction symmetry; exhaustive finite-domain evaluation of branch predicates from the CFG; exact bit-routing abstract evaluation of shift/mask/or code vs reference tables; edge-cut must-pass",
+  ref="4/C15"),
  "C19": dict(
   text="Structural clauses of xz naming/overwrite/metadata safety: the compress and decompress suffix tables agree (every "
        "suffix added or refused when compressing is removed when decompressing, defaults map to the bare name, .txz/.tlz to "
